@@ -123,7 +123,7 @@ def datagen_trace(run, tag):
 def rar_trace(run, tag):
     """a solve call with refinement -> a trace for Trace_Rar (None when the call is not eligible)"""
     b = run["before"]
-    if b is None or b["rar_parameters"] is None or run["after"] is None:
+    if b is None or b["rar_parameters"] is None or (run["after"] is None and not run["raised"]):
         return None
     rp = b["rar_parameters"]
     cls = b["cls"]
@@ -249,13 +249,17 @@ def datagen_leg(fut, pid="C09"):
     if broken:
         raise core.MachineryError("repo-test trace could not be recorded: " + broken[0]["exc"])
     live = [t for t in trs if not t.get("skipped")]
-    if not live:
+    if not live and not any(r["raised"] for r in runs):
         raise core.MachineryError("no solve call of the repository's tests could be traced: " + line + "\n" + out[-1500:])
     sc = core.Scratch("repotests")
     try:
         slim = [{k: v for k, v in t.items() if k != "cfg"} for t in live]
         rej, acc, res = tracecheck.validate("Trace_DataGen", _dg.TRACE_CFG % pid, slim, sc, "trRepo", chunk=4)
         viol = []
+        for run in runs:          # none of the selected tests expects solve to raise
+            if run["raised"]:
+                viol.append(dict(clause="RepoTest_SolveRaised", sig=dict(leg="repo_tests", test=run["test"].split(" ")[0]), detail=run["raised"],
+                                 driver="harness.drv_datagen:run_case", cfg=dict(src="repo_tests", test=run["test"]), record=dict(raised=run["raised"])))
         for r in rej:
             t = live[r["tid"]]
             viol.append(dict(clause="RepoTest_" + r["clause"], sig=dict(leg="repo_tests", test=t["cfg"]["test"].split(" ")[0]),
